@@ -360,6 +360,7 @@ class SimFS:
     def __init__(self, root):
         self.root = os.path.realpath(root)
         self.prefix = self.root + os.sep
+        self.alt_prefixes = []
         self.ev = Events()
         self.order = {"policy": "asc", "key": 0}
         self.file_bufsize = None
@@ -368,9 +369,17 @@ class SimFS:
         self.mutations = []      # (kind, rel) of every mutating call seen by the seams
         self.listings = []       # (rel, tuple(names)) served
         self.installed = False
+        self.mounts = []         # [(absolute path as the tool sees it, real path below the scratch root)]
+        self.share = None        # (absolute path as the tool sees it, real path outside the root)
         self.active = False      # seams only interpose while an op is running
 
     # ---- path classification
+    def outside(self, p):
+        """translation for the one mounted location that lives outside the simulated root (registry directory)"""
+        if self.share and self.active and isinstance(p, str) and (p == self.share[0] or p.startswith(self.share[0] + "/")):
+            return self.share[1] + p[len(self.share[0]):]
+        return p
+
     def rel(self, p):
         if not self.active:
             return None
@@ -385,11 +394,19 @@ class SimFS:
             p = os.path.normpath(p)
         except TypeError:
             return None
+        for src, dst in self.mounts:
+            # fixed absolute locations of a BMC (default PEL directory, registry directory) served from the scratch tree
+            if p == src or p.startswith(src + os.sep):
+                p = dst + p[len(src):]
+                break
         if p == self.root:
             return "."
         if p.startswith(self.prefix):
             return p[len(self.prefix):]
         return None
+
+    def real(self, rel):
+        return self.root if rel == "." else os.path.join(self.root, rel)
 
     # ---- ordering
     def arrange(self, rel, names):
@@ -415,6 +432,7 @@ class SimFS:
                closefd=True, opener=None):
         rel = self.rel(file)
         if rel is None:
+            file = self.outside(file)
             if self.active and self.ev.kfaults and isinstance(file, str) and file.startswith(MODULES) and not file.endswith(".py"):
                 # a data file shipped with the repository (PTE tables, trace string files, registry ...)
                 idx, f = self.ev.point("open_data", os.path.basename(file), None)
@@ -449,7 +467,7 @@ class SimFS:
         top = os.fspath(top)
         idx, _ = self.ev.point("walk", rel, None)
         try:
-            entries = self._scan(top)
+            entries = self._scan(self.real(rel))
         except OSError as e:
             if onerror is not None:
                 onerror(e)
@@ -463,21 +481,21 @@ class SimFS:
             yield top, dirs, files
             for d in dirs:
                 p = os.path.join(top, d)
-                if followlinks or not os.path.islink(p):
+                if followlinks or not os.path.islink(os.path.join(self.real(rel), d)):
                     yield from self.s_walk(p, topdown, onerror, followlinks)
         else:
             for d in dirs:
                 p = os.path.join(top, d)
-                if followlinks or not os.path.islink(p):
+                if followlinks or not os.path.islink(os.path.join(self.real(rel), d)):
                     yield from self.s_walk(p, topdown, onerror, followlinks)
             yield top, dirs, files
 
     def s_listdir(self, path="."):
         rel = self.rel(path)
         if rel is None:
-            return _o.listdir(path)
+            return _o.listdir(self.outside(path))
         idx, _ = self.ev.point("listdir", rel, None)
-        names = self.arrange(rel, _o.listdir(path))
+        names = self.arrange(rel, _o.listdir(self.real(rel)))
         self.ev.after(idx)
         return names
 
@@ -486,7 +504,7 @@ class SimFS:
         if rel is None:
             return _o.scandir(path)
         idx, _ = self.ev.point("scandir", rel, None)
-        entries = {e.name: e for e in self._scan(path)}
+        entries = {e.name: e for e in self._scan(self.real(rel))}
         ordered = [entries[n] for n in self.arrange(rel, list(entries))]
         self.ev.after(idx)
         return _ScandirResult(ordered)
@@ -506,6 +524,7 @@ class SimFS:
             idx, f = fs.ev.point(ekind, rel, None)
             if f is not None and f["kind"] in ("error", "short"):
                 raise _oserror(f.get("errno", "EACCES"), a[0])
+            a = tuple(fs.real(r) if (i < nargs and r is not None) else x for i, (x, r) in enumerate(zip(a, rels + [None] * len(a))))
             res = orig(*a, **kw)
             fs.mutations.append((kind, rel))
             fs.ev.after(idx)
@@ -520,7 +539,7 @@ class SimFS:
             if f is not None and f["kind"] in ("error", "short", "short_ok"):
                 raise _oserror(f.get("errno", "ENOSPC"), path)
             self.mutations.append(("open_out", rel))
-            fd = _o.os_open(path, flags, mode)
+            fd = _o.os_open(self.real(rel), flags, mode)
             self.fds[fd] = rel
             self.ev.after(idx)
             return fd
@@ -577,13 +596,28 @@ class SimFS:
             raise _oserror(f.get("errno", "EIO"), rel)
         self.ev.after(idx)
 
+    def s_stat(self, path, *a, **kw):
+        if (self.mounts or self.share) and self.active and not kw.get("dir_fd"):
+            rel = self.rel(path)
+            if rel is not None:
+                return _o.stat(self.real(rel), *a, **kw)
+        return _o.stat(self.outside(path) if self.share else path, *a, **kw)
+
+    def s_lstat(self, path, *a, **kw):
+        if self.mounts and self.active and not kw.get("dir_fd"):
+            rel = self.rel(path)
+            if rel is not None:
+                return _o.lstat(self.real(rel), *a, **kw)
+        return _o.lstat(path, *a, **kw)
+
     # ---- install / uninstall
     def install(self):
         if self.installed:
             return
         self._saved = {}
         patch = {"walk": self.s_walk, "listdir": self.s_listdir, "scandir": self.s_scandir,
-                 "open": self.s_os_open, "write": self.s_os_write, "fsync": self.s_os_fsync, "close": self.s_os_close}
+                 "open": self.s_os_open, "write": self.s_os_write, "fsync": self.s_os_fsync, "close": self.s_os_close,
+                 "stat": self.s_stat, "lstat": self.s_lstat}
         for name, n in (("remove", 1), ("unlink", 1), ("rename", 2), ("replace", 2), ("rmdir", 1),
                         ("mkdir", 1), ("makedirs", 1), ("truncate", 1), ("link", 2), ("symlink", 2),
                         ("removedirs", 1), ("renames", 2), ("chmod", 1), ("utime", 1)):
@@ -857,7 +891,10 @@ _counter = [0]
 class World:
     """Fresh module set + SimFS + plugin host for one run."""
 
-    def __init__(self, plugins=None, registry=None, tag="w"):
+    BMC_LOGS = "/var/lib/phosphor-logging/extensions/pels/logs"
+    BMC_SHARE = "/usr/share/phosphor-logging/pels"
+
+    def __init__(self, plugins=None, registry=None, tag="w", bmc=False):
         _counter[0] += 1
         # fixed width: the length of the path reaches the event log through
         # the byte counts of messages that mention it
@@ -868,6 +905,21 @@ class World:
         self.fs = SimFS(self.root)
         self.regdir = None
         specs = dict(plugins or {})
+        self.bmc = bmc or None
+        if bmc:
+            # "running on the BMC": the tool's default PEL directory exists and is served from <root>/<bmc> (the
+            # directory the check calls its PEL directory); there is no -p option, -A selects <default>/archive, and
+            # the registry lives under /usr/share/phosphor-logging/pels (served from a directory outside the root)
+            _o.makedirs(os.path.join(self.root, bmc), exist_ok=True)
+            self.fs.mounts.append((self.BMC_LOGS, os.path.join(self.fs.root, bmc)))
+        if registry is not None and bmc:
+            share = self.root + "-share"
+            self.regdir = share
+            write_file(os.path.join(share, "message_registry.json"), json.dumps({"PELs": registry.get("pels", [])}).encode())
+            for creator, table in (registry.get("component_ids") or {}).items():
+                write_file(os.path.join(share, creator + "_component_ids.json"), json.dumps(table).encode())
+            self.fs.share = (self.BMC_SHARE, share)
+            registry = None
         if registry is not None:
             # the fake pel_registry lives *outside* the simulated root so its
             # files are not part of the PEL directory tree
@@ -982,6 +1034,18 @@ class World:
             exit_flush=True, stdout_encoding="utf-8"):
         """argv: list of str where '@/x' is replaced by <root>/x."""
         real = [self.path(a[2:]) if a.startswith("@/") else (self.root if a == "@" else a) for a in argv]
+        if self.bmc:
+            # on the BMC there is no -p: the PEL directory is the built-in default, its archive is reached with -A
+            out_argv, i = [], 0
+            while i < len(argv):
+                if argv[i] in ("-p", "--path") and i + 1 < len(argv) and argv[i + 1] in ("@/" + self.bmc, "@/" + self.bmc + "/archive"):
+                    if argv[i + 1].endswith("/archive"):
+                        out_argv.append("-A")
+                    i += 2
+                    continue
+                out_argv.append(argv[i])
+                i += 1
+            real = [self.path(a[2:]) if a.startswith("@/") else (self.root if a == "@" else a) for a in out_argv]
         if self.fresh_per_run:
             # every CLI invocation is its own process: nothing survives from the previous one
             self.fresh_modules()
